@@ -384,10 +384,11 @@ def gen_engine(fl, rng, n_in, n_out, range_mode=None, disable_output=None):
     disabled = None
     if n_out >= 2 and (disable_output is True or (disable_output is None and rng.random() < 0.2)):
         disabled = rng.choice(outs)
+    all_disabled = disable_output == "all"  # every output value 0-d: one row of outputs repeated for every grid point (repaired)
     for nm in outs:
         ts = rng.random() < 0.5
         kinds.append(ts)
-        L += [f"OutputVariable: {nm}", f"  enabled: {cbool(nm != disabled)}", "  range: 0.0 1.0", f"  lock-range: {cbool(rng.random() < 0.2)}"]
+        L += [f"OutputVariable: {nm}", f"  enabled: {cbool(nm != disabled and not all_disabled)}", "  range: 0.0 1.0", f"  lock-range: {cbool(rng.random() < 0.2)}"]
         if ts:
             L += ["  aggregation: none", "  defuzzifier: WeightedAverage TakagiSugeno"]
         else:
@@ -454,18 +455,19 @@ def batch_has_vector_output(engine, rows) -> bool:
     return any(np.ndim(ov.value) >= 1 and np.size(ov.value) == len(rows) for ov in e.output_variables)
 
 
-def value_matrix(variables) -> np.ndarray:
+def value_matrix(variables, rows=None) -> np.ndarray:
     """the values the variables hold after an export, one column per variable, one row per grid point -- read from the
     variables themselves (0-d values broadcast), not through Engine.input_values / Engine.output_values"""
     if not variables:
         return np.zeros((0, 0))
     cols = [np.atleast_1d(np.asarray(var.value, dtype=float)).ravel() for var in variables]
-    k = max(len(c) for c in cols)
+    k = max([len(c) for c in cols] + ([rows] if rows else []))  # 0-d values are repeated for every row (of the inputs)
     return np.column_stack([c if len(c) == k else np.full(k, c[-1]) for c in cols])
 
 
 def all_outputs_scalar(engine, rows):
-    """the cause of the known finding fld:all-scalar-outputs-raise, checked explicitly on the batch (Engine.process, not the
+    """the cause of the former known finding fld:all-scalar-outputs-raise (repaired: FldExporter.write broadcasts the one row
+    of output values; the signature stays as a violation kind so that a regression is reported), checked explicitly on the batch (Engine.process, not the
     exporter): after processing the k > 1 rows at once EVERY output variable holds a 0-d value because it is disabled or
     its fuzzy output is empty / has only 0-d degrees (no rule that depends on the inputs concludes on it)"""
     e = copy.deepcopy(engine)
@@ -549,7 +551,7 @@ def text_part(ctx, fl, verdict, stats):
     # enabled one (a 0-d value next to per-row vectors) on a grid of several rows
     forced += [(kind, n_, all_, v_, mode, dis) for kind in ("direct", "fll") for n_, all_, v_, mode, dis in (
         (1, False, 5, "desc", False), (2, True, 9, "desc", False), (3, False, 2, "desc", False), (1, False, 4, "zero", False), (2, True, 16, "zero", False),
-        (1, False, 4, None, True), (2, True, 9, None, True))]
+        (1, False, 4, None, True), (2, True, 9, None, True), (1, False, 4, None, "all"), (2, True, 9, None, "all"))]
     for case in range(ncases):
         force = forced[case] if case < len(forced) else None
         if force:
@@ -571,7 +573,7 @@ def text_part(ctx, fl, verdict, stats):
         active = None
         if force:
             is_all, v, xi = force[2], force[3], True
-            xo = xo or force[5]
+            xo = xo or bool(force[5])
         elif rng.random() < 0.2:
             flags = [rng.random() < 0.5 for _ in ivs]
             active = {iv for iv, f in zip(ivs, flags) if f}
@@ -600,7 +602,7 @@ def text_part(ctx, fl, verdict, stats):
         if not ok:
             continue
         ins = value_matrix(ivs)
-        outs = value_matrix(ovs)
+        outs = value_matrix(ovs, len(ins))
         p = int(round(pow(v, 1.0 / n)))
         stats["text_cases"] += 1
         stats["keys"].add(("text", engine.name, n, is_all, v, sep, hdr, xi, xo, d, tuple(flags), text))
@@ -798,7 +800,7 @@ def reader_part(ctx, fl, verdict, stats):
         ins = outs = np.zeros((0, 0))
         if err is None:
             ins = value_matrix(ivs)
-            outs = value_matrix(ovs)
+            outs = value_matrix(ovs, len(ins))
             stats["reader_rows"] += len(ins)
         if should_work and err is None:
             lines = got.split("\n")
